@@ -37,6 +37,7 @@ type edit struct {
 	off  int
 	seq  int
 	text string
+	del  int // bytes removed at off before text is inserted
 }
 
 type site struct {
@@ -60,6 +61,8 @@ type report struct {
 	WeakSites []string    `json:"weak_sites"`
 	Census    []censusHit `json:"census"`
 	Files     int         `json:"files"`
+	ClockSites int        `json:"clock_sites"` // time.Now/Since/Until/Sleep calls put behind the simulated clock
+	RandSites  int        `json:"rand_sites"`  // math/rand package-level calls put behind the simulated source
 }
 
 var (
@@ -165,7 +168,15 @@ func instrumentFile(p *packages.Package, f *ast.File, fn string, pristine bool) 
 	info := p.TypesInfo
 	var edits []edit
 	add := func(pos token.Pos, text string) {
-		edits = append(edits, edit{fset.Position(pos).Offset, len(edits), text})
+		edits = append(edits, edit{fset.Position(pos).Offset, len(edits), text, 0})
+	}
+	keepAlive := map[string]bool{}
+	// replace the package-qualified function name of a call (e.g. time.Now) by a
+	// simulator function; the import stays used through a dummy reference
+	replaceSel := func(sel *ast.SelectorExpr, with, keep string) {
+		o, e := fset.Position(sel.Pos()).Offset, fset.Position(sel.End()).Offset
+		edits = append(edits, edit{o, len(edits), with, e - o})
+		keepAlive[keep] = true
 	}
 	census := func(n ast.Node, class, what string) {
 		pp := fset.Position(n.Pos())
@@ -307,10 +318,24 @@ func instrumentFile(p *packages.Package, f *ast.File, fn string, pristine bool) 
 						switch path := pn.Imported().Path(); path {
 						case "time":
 							switch sel.Sel.Name {
-							case "Now", "Since", "Until", "Sleep", "After", "AfterFunc", "NewTimer", "NewTicker", "Tick":
+							case "Now", "Since", "Until", "Sleep":
+								// the clock goes behind the simulator's seam
+								replaceSel(sel, "verifsim_.Time"+sel.Sel.Name, id.Name+"."+sel.Sel.Name)
+								census(n, "owned-clock", "time."+sel.Sel.Name+" (simulated clock)")
+								rep.ClockSites++
+							case "After", "AfterFunc", "NewTimer", "NewTicker", "Tick":
 								census(n, "nondeterminism", "time."+sel.Sel.Name)
 							}
-						case "math/rand", "math/rand/v2", "crypto/rand":
+						case "math/rand":
+							switch sel.Sel.Name {
+							case "Intn", "Int", "Int31", "Int31n", "Int63", "Int63n", "Uint32", "Uint64", "Float64", "Float32", "Perm", "Shuffle":
+								replaceSel(sel, "verifsim_.Rand"+sel.Sel.Name, id.Name+"."+sel.Sel.Name)
+								census(n, "owned-random", "math/rand."+sel.Sel.Name+" (simulated randomness)")
+								rep.RandSites++
+							default:
+								census(n, "nondeterminism", path+"."+sel.Sel.Name)
+							}
+						case "math/rand/v2", "crypto/rand":
 							census(n, "nondeterminism", path+"."+sel.Sel.Name)
 						case "os":
 							switch sel.Sel.Name {
@@ -356,7 +381,18 @@ func instrumentFile(p *packages.Package, f *ast.File, fn string, pristine bool) 
 		panic(err)
 	}
 	for _, e := range edits {
-		src = append(src[:e.off], append([]byte(e.text), src[e.off:]...)...)
+		src = append(src[:e.off], append([]byte(e.text), src[e.off+e.del:]...)...)
+	}
+	if len(keepAlive) > 0 {
+		// rewritten package-qualified calls may leave an import unused
+		var ks []string
+		for k := range keepAlive {
+			ks = append(ks, k)
+		}
+		sort.Strings(ks)
+		for _, k := range ks {
+			src = append(src, []byte("\nvar _ = "+k+"\n")...)
+		}
 	}
 	if err := os.WriteFile(fn, src, 0o644); err != nil {
 		panic(err)
